@@ -483,7 +483,7 @@ class Scn:
             c = counts.get(i, 0)
             live = i == self.it_data or i == self.cd
             want = self.expected(i)
-            if live or not (c == 1 and want == 1):
+            if live or not (c == 1 and want in (1, None)):
                 owner = rec.get("owner")
                 unsettled.append((rec.get("kind"), owner if owner in (None, "caller", "unspecified") else owner == self.gen,
                                   rec.get("caller_fin"), c, want, i == self.it_data, i == self.cd))
